@@ -124,6 +124,7 @@ def run(ctx):
     if not ok:
         ctx.violation("R-C16-DEFAULT", "alias", ("src/lib.rs", 0, "DefaultBuffer"), "DefaultBuffer is not ArrayBuf<8192>: %r" % (al and al["ty"].get("s"),))
     ctx.cov.update({"write_sites": sites, "outcomes": len(outs), "oom_outcomes": n_oom, "failed_write_paths": n_fail})
+    ctx.include("C18", "capacity exactly L suffices / below L is an error presupposes that ArrayBuf<N> is an exact bounded vector for every N")
     ctx.assumptions = [ASSUMPTIONS[k] for k in ("A1", "A2", "A6")]
     ctx.explanation = (
         "Structural clauses of the buffer-need property decided on every abstract path of push_byte: zeros flushed on success are "
